@@ -20,6 +20,7 @@ func extractAll(p *pkg, f *facts) {
 	poolFacts(p, f)
 	drainFacts(p, f)
 	connFacts(p, f)
+	serverFacts(p, f)
 }
 
 func (p *pkg) constNat(f *facts, leanName, goName string) {
